@@ -33,7 +33,9 @@ func main() {
 	o := common.Parse(prop)
 	defer o.Cleanup()
 	if o.Replay != "" {
-		os.Exit(replay(o))
+		code := replay(o)
+		o.Cleanup()
+		os.Exit(code)
 	}
 	if v, err := strconv.Atoi(os.Getenv("C15_TIMELINE")); err == nil {
 		// diagnostics: print the timeline and trace tail of one schedule
@@ -53,6 +55,7 @@ func main() {
 			}
 		}
 		fmt.Println("violation:", viol)
+		o.Cleanup()
 		return
 	}
 	schedules, events := 400, 3000
